@@ -1,7 +1,10 @@
 package main
 
 import (
+	"encoding/json"
 	"fmt"
+	"os"
+	"path/filepath"
 	"go/ast"
 	"go/token"
 	"go/types"
@@ -320,6 +323,8 @@ func (f *Frame) callByContract(st *state, callee *ssa.Function, ct *FuncContract
 	}
 	envPost := u.funcEnv(callee, args, results, st, pre)
 	envPost.assume = true
+	u.bindGhosts(envPost, callee, ct, nil, f.prefix+".c", st)
+	u.assumeLemmaList(ct, ct.PostUses, ct.PostUseExprs, envPost, st)
 	for _, c := range ct.Ensures {
 		if knownFalseClause(ct.Key, c.Label) {
 			// a postcondition recorded as a known finding does not hold of the code: callers must not assume it
@@ -445,6 +450,8 @@ func encodeUnitMode(p *Program, db *ContractDB, root *ssa.Function, safetyOnly b
 		for ri, r := range f.rets {
 			rst := &state{reach: r.reach, mem: r.mem}
 			env := u.funcEnv(root, f.params, r.vals, rst, entry)
+			u.bindGhosts(env, root, ct, f, "root", rst)
+			u.assumeLemmaList(ct, ct.PostUses, ct.PostUseExprs, env, rst)
 			suffix := ""
 			if len(f.rets) > 1 {
 				suffix = fmt.Sprintf("@ret%d", ri+1)
@@ -950,6 +957,14 @@ func solveUnit(res *UnitResult, opt Options) {
 			}
 			quant := strings.Contains(script, "(forall ") || strings.Contains(script, "(exists ")
 			done := false
+			if stage, ok := strategyFor(o.Name); ok {
+				// the stage of the proof search that decided this obligation last time (strategy.json): tried first, with
+				// the full time limit. Only the order of the search changes: a proof is still an "unsat" of the same
+				// query, and when the hint fails the whole ladder below runs as usual.
+				if s := u.stageScript(o, script, stage); s != "" && try(s, stage+" (hinted)", false) {
+					return
+				}
+			}
 			if opt.NeedAgree <= 1 && quant {
 				if r0 := solveQuick(script, opt.Timeout); r0.Verdict != "unknown" {
 					o.Res = r0
@@ -971,6 +986,9 @@ func solveUnit(res *UnitResult, opt Options) {
 					}
 					if !done {
 						done = try(ginstScriptOpt(script, true, true), " +ground-instances/uf", true)
+					}
+					if !done {
+						done = try(ginstScript(script, false), " +instances", true)
 					}
 				}
 			}
@@ -1001,6 +1019,7 @@ func solveUnit(res *UnitResult, opt Options) {
 	}
 	wg.Wait()
 	res.SolveSec = time.Since(t0).Seconds()
+	learnStrategy(res.Obls)
 }
 
 var _ = token.NoPos
@@ -1009,28 +1028,127 @@ var _ = token.NoPos
 // assumeLemmas instantiates the lemmas named by "use name(args)" clauses: the lemma's parameters are bound to the
 // argument values (evaluated in the entry state), its induction variable is universally quantified.
 func (u *Unit) assumeLemmas(fn *ssa.Function, ct *FuncContract, params []Val, entry *state) {
-	for i, e := range ct.UseExprs {
+	u.assumeLemmaList(ct, ct.Uses, ct.UseExprs, u.funcEnv(fn, params, nil, entry, entry), entry)
+}
+
+// ghostSite finds the value a ghost name stands for: an argument or a result of the only static call to the callee.
+func ghostSite(fn *ssa.Function, g GhostDef) (ssa.Value, error) {
+	var found ssa.Value
+	n := 0
+	for _, b := range fn.Blocks {
+		for _, ins := range b.Instrs {
+			c, ok := ins.(*ssa.Call)
+			if !ok {
+				continue
+			}
+			sc := c.Common().StaticCallee()
+			if sc == nil || sc.Name() != g.Callee {
+				continue
+			}
+			n++
+			if g.Arg >= 0 {
+				if g.Arg >= len(c.Common().Args) {
+					return nil, fmt.Errorf("ghost %s: %s has no argument %d", g.Name, g.Callee, g.Arg)
+				}
+				found = c.Common().Args[g.Arg]
+				continue
+			}
+			if _, tup := c.Type().(*types.Tuple); !tup {
+				if g.Res != 0 {
+					return nil, fmt.Errorf("ghost %s: %s has one result", g.Name, g.Callee)
+				}
+				found = c
+				continue
+			}
+			found = nil
+			for _, r := range *c.Referrers() {
+				if ex, ok := r.(*ssa.Extract); ok && ex.Index == g.Res {
+					found = ex
+				}
+			}
+			if found == nil {
+				return nil, fmt.Errorf("ghost %s: result %d of %s is not used", g.Name, g.Res, g.Callee)
+			}
+		}
+	}
+	if n != 1 {
+		return nil, fmt.Errorf("ghost %s: %d static calls of %s (need exactly one)", g.Name, n, g.Callee)
+	}
+	return found, nil
+}
+
+// bindGhosts makes the ghost names of a contract visible in env. In the function itself (f != nil) a ghost is the value
+// computed at its site (an arbitrary value on paths that do not pass the site, which only makes the proof harder); at a
+// call site it is a fresh constant: the callee proved its postcondition for one particular value, the caller knows
+// only that such a value exists.
+func (u *Unit) bindGhosts(env *Env, fn *ssa.Function, ct *FuncContract, f *Frame, prefix string, st *state) {
+	for _, g := range ct.Ghosts {
+		if g.GhostOf != "" {
+			if val, ok := u.calleeGhosts[g.Callee+"."+g.GhostOf]; ok && f != nil {
+				env.bound[g.Name] = val
+			} else {
+				u.specErrors = append(u.specErrors, fmt.Sprintf("%s: ghost %s: no contract-mode call of %s with a ghost %s", ct.Key, g.Name, g.Callee, g.GhostOf))
+			}
+			continue
+		}
+		v, err := ghostSite(fn, g)
+		if err != nil {
+			u.specErrors = append(u.specErrors, fmt.Sprintf("%s: %v", ct.Key, err))
+			continue
+		}
+		if f != nil {
+			if c, ok := v.(*ssa.Const); ok {
+				env.bound[g.Name] = u.constVal(c)
+				continue
+			}
+			if val, ok := f.vals[v]; ok {
+				env.bound[g.Name] = val
+				continue
+			}
+			if p, ok := v.(*ssa.Parameter); ok {
+				env.bound[g.Name] = f.val(p)
+				continue
+			}
+		}
+		hv := u.havocValSafe(prefix+".ghost."+g.Name, v.Type(), st)
+		env.bound[g.Name] = *hv
+		if f == nil {
+			if u.calleeGhosts == nil {
+				u.calleeGhosts = map[string]Val{}
+			}
+			u.calleeGhosts[fn.Name()+"."+g.Name] = *hv
+		}
+	}
+}
+
+func (u *Unit) assumeLemmaList(ct *FuncContract, uses []string, useExprs []ast.Expr, env *Env, entry *state) {
+	for i, e := range useExprs {
 		call, ok := e.(*ast.CallExpr)
 		if !ok {
-			u.specErrors = append(u.specErrors, fmt.Sprintf("%s: use %s: expected name(args)", ct.Key, ct.Uses[i]))
+			u.specErrors = append(u.specErrors, fmt.Sprintf("%s: use %s: expected name(args)", ct.Key, uses[i]))
 			continue
 		}
-		id, ok := call.Fun.(*ast.Ident)
-		if !ok {
-			continue
+		lname := ""
+		switch fx := call.Fun.(type) {
+		case *ast.Ident:
+			lname = ct.Pkg + "." + fx.Name
+		case *ast.SelectorExpr:
+			// a lemma of another package: pkg.name
+			if x, ok := fx.X.(*ast.Ident); ok {
+				lname = x.Name + "." + fx.Sel.Name
+			}
 		}
-		lm := u.db.Lemmas[ct.Pkg+"."+id.Name]
+		lm := u.db.Lemmas[lname]
 		if lm == nil {
-			u.specErrors = append(u.specErrors, fmt.Sprintf("%s: unknown lemma %s", ct.Key, id.Name))
+			u.specErrors = append(u.specErrors, fmt.Sprintf("%s: unknown lemma %s", ct.Key, uses[i]))
 			continue
 		}
 		func() {
 			defer func() {
 				if r := recover(); r != nil {
-					u.specErrors = append(u.specErrors, fmt.Sprintf("%s: use %s: %v", ct.Key, ct.Uses[i], r))
+					u.specErrors = append(u.specErrors, fmt.Sprintf("%s: use %s: %v", ct.Key, uses[i], r))
 				}
 			}()
-			env := u.funcEnv(fn, params, nil, entry, entry)
 			// bind lemma parameters (all except the induction variable) to the arguments
 			var nonInd []specParam
 			for _, p := range lm.Params {
@@ -1173,4 +1291,86 @@ func knownFalseClause(key, label string) bool {
 		}
 	})
 	return knownFalse[key+"\x00"+label]
+}
+
+// stageScript builds the query variant named by a stage label of the proof search ("" = the full script).
+func (u *Unit) stageScript(o *Obligation, script, stage string) string {
+	stage = strings.TrimSuffix(stage, " (hinted)")
+	focused := strings.HasPrefix(stage, " +focused")
+	base := script
+	if focused {
+		base = u.scriptFocused(o)
+		if base == "" {
+			return ""
+		}
+		stage = " +" + strings.TrimPrefix(strings.TrimPrefix(stage, " +focused"), "+")
+	}
+	switch stage {
+	case "", " +":
+		return base
+	case " +ground-instances/uf/light":
+		return ginstScriptLevel(base, true, true, 0)
+	case " +ground-instances/uf":
+		return ginstScriptOpt(base, true, true)
+	case " +ground-instances":
+		return ginstScript(base, true)
+	case " +instances":
+		return ginstScript(base, false)
+	}
+	return ""
+}
+
+var (
+	strategyOnce sync.Once
+	strategyMap  map[string]string
+	strategyMu   sync.Mutex
+	strategyNew  = map[string]string{}
+)
+
+// strategyFor: proof-search hints recorded by "GOVC_LEARN=1 govc check" in /verif/strategy.json (obligation -> stage).
+func strategyFor(name string) (string, bool) {
+	strategyOnce.Do(func() {
+		strategyMap = map[string]string{}
+		if os.Getenv("GOVC_NOHINTS") != "" {
+			return
+		}
+		if data, err := os.ReadFile(filepath.Join(verifRoot(), "strategy.json")); err == nil {
+			json.Unmarshal(data, &strategyMap)
+		}
+	})
+	st, ok := strategyMap[name]
+	return st, ok
+}
+
+// learnStrategy records the deciding stage of slow proofs (learn mode only).
+func learnStrategy(obls []*Obligation) {
+	if os.Getenv("GOVC_LEARN") == "" {
+		return
+	}
+	strategyMu.Lock()
+	defer strategyMu.Unlock()
+	for _, o := range obls {
+		if o.Res.Verdict != "unsat" || o.Kind == "cover" || o.Res.Seconds < 4 {
+			continue
+		}
+		stage := ""
+		if i := strings.Index(o.Res.Solver, " +"); i >= 0 {
+			stage = strings.TrimSuffix(o.Res.Solver[i:], " (hinted)")
+		}
+		strategyNew[o.Name] = stage
+	}
+}
+
+func saveStrategy() {
+	if os.Getenv("GOVC_LEARN") == "" {
+		return
+	}
+	strategyFor("")
+	strategyMu.Lock()
+	defer strategyMu.Unlock()
+	for k, v := range strategyNew {
+		strategyMap[k] = v
+	}
+	data, _ := json.MarshalIndent(strategyMap, "", " ")
+	os.WriteFile(filepath.Join(verifRoot(), "strategy.json"), append(data, '\n'), 0o644)
 }
